@@ -19,14 +19,18 @@ import (
 
 func allOpsDiff() {
 	ctx := context.Background()
-	bin, fns := allops.ModuleCopies(2)
+	bin, fns := allops.ModuleCopies(3)
 	var mods [2]api.Module
 	var rts [2]wazero.Runtime
 	for ei, rc := range []wazero.RuntimeConfig{wazero.NewRuntimeConfigInterpreter(), wazero.NewRuntimeConfigCompiler()} {
 		rts[ei] = wazero.NewRuntimeWithConfig(ctx, rc.WithCoreFeatures(features))
-		m, err := rts[ei].Instantiate(ctx, bin)
+		m, err := safeInstantiate(ctx, rts[ei], bin)
 		if err != nil {
-			hx.Fatal("allops module (generator bug): %v", err)
+			// the module is valid (the other stages of this run and hc03 compile it): an engine that cannot is a divergence
+			rep.Violate(hx.Violation{Kind: "impl-violation", Signature: "C01:engines-differ:all-instructions-module-does-not-compile:" + []string{"interpreter", "compiler"}[ei],
+				What:  "the all-instructions module (every function three times) does not compile / instantiate on one engine: " + clipObs(err.Error()),
+				Input: map[string]any{"module": "allops.ModuleCopies(3)"}, Actual: err.Error()})
+			return
 		}
 		mods[ei] = m
 	}
@@ -73,7 +77,7 @@ func allOpsDiff() {
 			if obs[0] != obs[1] {
 				rep.Violate(hx.Violation{Kind: "impl-violation", Signature: differSigAllOps(f.Name, obs[0], obs[1]),
 					What:     fmt.Sprintf("all-instructions module: %s (function op%d) called with %#x: interpreter %s, compiler %s", f.Name, k, args, clipObs(obs[0]), clipObs(obs[1])),
-					Input:    map[string]any{"instruction": f.Name, "export": fmt.Sprintf("op%d", k), "args": args, "module": "allops.ModuleCopies(2)", "calls_before": "op0.. in order, three argument vectors each"},
+					Input:    map[string]any{"instruction": f.Name, "export": fmt.Sprintf("op%d", k), "args": args, "module": "allops.ModuleCopies(3)", "calls_before": "op0.. in order, three argument vectors each"},
 					Expected: obs[0], Actual: obs[1]})
 				return // the two instances have diverged: later calls would only echo it
 			}
@@ -94,4 +98,14 @@ func differSigAllOps(name, a, b string) string {
 		return "F50:atomic-access-unaligned-and-out-of-bounds-traps-with-different-kinds"
 	}
 	return "C01:engines-differ:instruction:" + name
+}
+
+// safeInstantiate turns a Go panic of CompileModule / InstantiateModule into an error.
+func safeInstantiate(ctx context.Context, rt wazero.Runtime, bin []byte) (m api.Module, err error) {
+	defer func() {
+		if r := recover(); r != nil {
+			err = fmt.Errorf("Go panic: %v", r)
+		}
+	}()
+	return rt.Instantiate(ctx, bin)
 }
